@@ -127,12 +127,16 @@ def tainted_vars(f, is_source, seed=()):
     changed = True
 
     def expr_tainted(e):
-        for n in ast.walk(e):
-            if isinstance(n, ast.Call) and is_source(n):
-                return True
-            if isinstance(n, ast.Name) and n.id in tainted and isinstance(n.ctx, ast.Load):
-                return True
-        return False
+        """the *value* of e is a wire integer (or arithmetic on one).  An element selected by a wire integer
+        (`X[i]`) and the result of a non-source call are data, not wire integers: the subscript `X[i]` is a sink
+        of its own."""
+        if isinstance(e, ast.Subscript):
+            return False
+        if isinstance(e, ast.Call):
+            return is_source(e)
+        if isinstance(e, ast.Name):
+            return e.id in tainted and isinstance(e.ctx, ast.Load)
+        return any(expr_tainted(c) for c in ast.iter_child_nodes(e) if isinstance(c, ast.expr))
 
     while changed:
         changed = False
